@@ -39,6 +39,21 @@ def height(tree):
     return max([1 + height(e) for e in tree.get("emb") or []] or [0])
 
 
+BASIC = {"bool", "string", "int", "int8", "int16", "int32", "int64", "uint", "uint8", "uint16", "uint32",
+         "uint64", "uintptr", "byte", "rune", "float32", "float64", "complex64", "complex128"}
+
+
+def basic_ok(x):
+    """no type outside the constructors the property lists (mirror of IFaceJudge.ty_in_domain)"""
+    if isinstance(x, dict):
+        if x.get("k") == "basic" and x.get("name") not in BASIC:
+            return False
+        return all(basic_ok(v) for v in x.values())
+    if isinstance(x, list):
+        return all(basic_ok(v) for v in x)
+    return True
+
+
 def find_decl(tree, name):
     lvl = [tree]
     while lvl:
